@@ -111,5 +111,46 @@ func Grid(opt GridOptions) []File {
 		}}, &Record{Kind: Struct, Name: "GridEmptyS" + first}, &Record{Kind: Message, Name: "GridEmptyM" + first})
 		files = append(files, f)
 	}
+	// edge shapes, in the last file: structs of fixed-width fields only whose wire size reaches 256 bytes (an 8-bit
+	// size table would wrap), as fields, array elements and map values; a union whose branches are empty records
+	last := &files[len(files)-1]
+	guids := func(n int) []Field {
+		var fs []Field
+		for i := 0; i < n; i++ {
+			fs = append(fs, Field{Name: "g" + string(rune('a'+i)), Type: Prim("guid")})
+		}
+		return fs
+	}
+	last.Records = append(last.Records,
+		&Record{Kind: Struct, Name: "Wide256", Fields: guids(16)},
+		&Record{Kind: Struct, Name: "Wide264", Fields: append(guids(16), Field{Name: "d", Type: Prim("date")})},
+		&Record{Kind: Struct, Name: "Blk64", Fields: guids(4)},
+		&Record{Kind: Struct, Name: "Wide260", Fields: []Field{
+			{Name: "a", Type: Named("Blk64")}, {Name: "b", Type: Named("Blk64")}, {Name: "c", Type: Named("Blk64")},
+			{Name: "d", Type: Named("Blk64")}, {Name: "e", Type: Prim("int32")},
+		}},
+		&Record{Kind: Struct, Name: "HoldsWide", Fields: []Field{
+			{Name: "w", Type: Named("Wide256")},
+			{Name: "after", Type: Prim("uint32")},
+			{Name: "ws", Type: Array(Named("Wide260"))},
+			{Name: "w4", Type: Array(Named("Wide264"))},
+			{Name: "wm", Type: Map("uint8", Named("Wide256"))},
+			{Name: "tail", Type: Prim("uint16")},
+		}},
+		&Record{Kind: Message, Name: "WideMsg", Fields: []Field{
+			{Name: "ws", Index: 1, Type: Array(Named("Wide260"))},
+			{Name: "w", Index: 2, Type: Named("Wide264")},
+			{Name: "tail", Index: 3, Type: Prim("uint32")},
+		}},
+		&Record{Kind: Union, Name: "EdgeU", Branches: []Branch{
+			{Disc: 1, Rec: &Record{Kind: Struct, Name: "EdgeNothing"}},
+			{Disc: 2, Rec: &Record{Kind: Message, Name: "EdgeNothingM"}},
+			{Disc: 3, Rec: &Record{Kind: Struct, Name: "EdgeOne", Fields: []Field{{Name: "x", Type: Prim("uint8")}}}},
+			{Disc: 4, Rec: &Record{Kind: Struct, Name: "EdgeEndsStr", Fields: []Field{{Name: "x", Type: Prim("uint32")}, {Name: "s", Type: Prim("string")}}}},
+		}},
+		// records whose last read is a string (the only place where a failure inside a string is not followed by another read)
+		&Record{Kind: Struct, Name: "EndsInStr", Fields: []Field{{Name: "a", Type: Prim("uint32")}, {Name: "s", Type: Prim("string")}}},
+		&Record{Kind: Struct, Name: "EndsInStrs", Fields: []Field{{Name: "a", Type: Prim("uint16")}, {Name: "ss", Type: Array(Prim("string"))}}},
+	)
 	return files
 }
